@@ -163,19 +163,27 @@ def main():
                             ck.violation("operator-equals-tensor",
                                          "apply:%s:%s" % (theory, where),
                                          dict(rp, where=where, err=e), rp)
-                # propagation with both forms
-                evs = []
-                for RT, HH in ((Rop, H1), (Rte, H2)):
-                    prop = ReducedDensityMatrixPropagator(ta, HH, RTensor=RT)
-                    r = qr.ReducedDensityMatrix(data=rho0.copy())
-                    evs.append(numpy.array(prop.propagate(r).data))
-                e = float(numpy.abs(evs[0] - evs[1]).max())
-                ck.case("forms-agree:propagation", (s, theory, td),
-                        sample=dict(rp, err=e))
-                if e > 1e-10:
-                    ck.violation("operator-equals-tensor",
-                                 "propagation:%s:td=%s" % (theory, td),
-                                 dict(rp, err=e), rp)
+                # propagation with both forms, with the default expansion
+                # and with another order of it
+                for meth in (None, ("short-exp-2", "short-exp-6")[s % 2]):
+                    evs = []
+                    for RT, HH in ((Rop, H1), (Rte, H2)):
+                        prop = ReducedDensityMatrixPropagator(ta, HH,
+                                                              RTensor=RT)
+                        r = qr.ReducedDensityMatrix(data=rho0.copy())
+                        if meth is None:
+                            evs.append(numpy.array(prop.propagate(r).data))
+                        else:
+                            evs.append(numpy.array(prop.propagate(
+                                r, method=meth).data))
+                    e = float(numpy.abs(evs[0] - evs[1]).max())
+                    ck.case("forms-agree:propagation", (s, theory, td, meth),
+                            sample=dict(rp, method=meth, err=e))
+                    if e > 1e-10:
+                        ck.violation("operator-equals-tensor",
+                                     "propagation:%s:td=%s:%s" % (
+                                         theory, td, meth or "default"),
+                                     dict(rp, method=meth, err=e), rp)
                 # conversion
                 Rop.convert_2_tensor()
                 with qr.eigenbasis_of(ham):
